@@ -114,3 +114,63 @@ def check_C07(run):
         exhaustive=True,
         assumptions=["'compiles' is the Go toolchain's verdict, TLA+ contributes the program space, the domain, PkgName and the expected reported texts",
                      "type trees deeper than %d are not generated" % depth])
+
+
+# ------------------------------------------------------------------------------------------- C08
+def check_C08(run):
+    thorough = run.tier == "thorough"
+    depth, chunk = (2, 40) if thorough else (1, 10)
+    g = run.generate("IdlProgGen", "INIT Init\nNEXT Next\nCONSTANTS\n Depth = %d\n Chunk = %d\n" % (depth, chunk), ["idl_prog.ndjson"], timeout=1500)
+    progs = g["idl_prog.ndjson"]
+    genbin = build_generator(run)
+    work = os.path.join(run.scratch, "gen08work")
+    tf = os.path.join(run.scratch, "c08-trace.ndjson")
+    sf = os.path.join(run.scratch, "c08-progs.ndjson")
+    open(sf, "w").write("\n".join(progs) + "\n")
+    rounds = 4 if thorough else 2
+    rc, so, se = run.run_driver(["gen08", "-scen", sf, "-out", tf, "-genbin", genbin, "-work", work, "-seed", str(run.seed), "-rounds", str(rounds)], timeout=3000)
+    shutil.rmtree(work, ignore_errors=True)
+    if rc != 0:
+        raise Inconclusive("gen08 driver failed: " + (se + so)[-2000:])
+    lines = [l for l in open(tf).read().split("\n") if l.strip()]
+    fails = [l for l in lines if '"ev":"C08FAIL"' in l]
+    if fails:
+        # the emitted test program did not compile or died: a bug of the harness' emitter, or a crash inside the
+        # generated code / library
+        f = json.loads(fails[0])
+        if "panic" in f.get("stderr", "") and ("verifgen/p" in f["stderr"] or "github.com/varlink/go" in f["stderr"]):
+            run.violation("the generated stubs / library crashed while running program %s: %s" % (f.get("prog"), f["stderr"][:800]), {"kind": "crash", "event": f})
+        else:
+            raise Inconclusive("emitted test program failed (harness emitter problem?): " + fails[0][:1500])
+    events = [l for l in lines if '"ev":"C08FAIL"' not in l]
+    remaining = events
+    reported = 0
+    for _ in range(20):
+        cur = os.path.join(run.scratch, "c08-cur.ndjson")
+        open(cur, "w").write("\n".join(remaining) + "\n")
+        r = run.validate_trace("Stub", TR_CFG, cur)
+        if r["accepted"]:
+            break
+        if "line" not in r:
+            raise Inconclusive("TLC failed on the stub events: " + (r.get("error") or r["out"][-1500:]))
+        bad = remaining[r["line"] - 1]
+        if reported < 5:
+            reported += 1
+            run.violation("C08 generated stubs: call event not allowed by the specification: " + bad[:700], {"kind": "case", "event": bad})
+        remaining = [c for k, c in enumerate(remaining) if k != r["line"] - 1]
+    calls = [l for l in events if '"ev":"C08"' in l]
+    run.traces_validated = len(remaining)
+    run.evaluations = len(calls)
+    run.nontrivial = sum(1 for l in calls if '"mode":"reply"' in l or '"mode":"error"' in l)
+    run.states = len(events) + 1
+    run.transitions = len(events)
+    run.add_samples([json.loads(c) for c in run.rng.sample(calls, min(4, len(calls)))])
+    run.extra["programs"] = len(progs)
+    run.extra["disagreements_checked"] = len(run.violations)
+    run.extra["calls_by_mode"] = {m: sum(1 for l in calls if '"mode":"%s"' % m in l) for m in ["reply", "error", "unknown", "undecodable", "flag-more", "flag-oneway", "flag-upgrade"]}
+    run.write_evidence("translation_validation",
+        "programs = Programs of spec/IdlProg.tla (depth %d) that compile; per program the harness emits a test implementation and a client from the same tree; every method is called through its generated client stub with generated values of every declared type (int64 extremes, floats, unicode strings, empty and nested arrays/maps/structs, absent and present optionals, arbitrary JSON for object, enums, recursive named types), %d value rounds; echo methods in reply mode, input methods also in error mode (generated Reply<Error> helper -> typed error), output methods left un-overridden (MethodNotImplemented), plus unknown method, undecodable parameters and the three flags through Send/Upgrade; a recording proxy captures the frames; evaluations = stub calls; non-trivial = calls that carried values (reply/error modes)" % (depth, rounds),
+        exhaustive=False,
+        assumptions=["the reference encoding (wire value per type, absent optional = member omitted) and the structural comparison of Go values are harness code (trusted)",
+                     "values are compared as JSON (members order-insensitively, numbers numerically when float64 holds them exactly, otherwise literally)",
+                     "programs whose package does not build are reported by C07, not here"])
